@@ -100,7 +100,8 @@ def mvccBkStep (b : MvccBk) (toks : List String) : MvccBk × String :=
     | some k =>
       let (d1, o1) := mvccStep b.base ["del", "0", toString k]
       if o1 == "bad-op" then (b, "bad-op") else
-      let vis := ["visit", s] ++ rest.filter (fun t => t.startsWith "shards=" || t.startsWith "conc=")
+      let vis := if rest.contains "mode=scan" then ["scan", s]
+        else ["visit", s] ++ rest.filter (fun t => t.startsWith "shards=" || t.startsWith "conc=")
       let (d2, o2) := mvccStep d1 vis
       if o2 == "bad-op" then (b, "bad-op") else ({ b with base := d2 }, s!"del={o1} {o2}")
   | ["image"] => (b, "*")
